@@ -37,7 +37,7 @@ type spec struct {
 }
 
 var writeKinds = []string{"insert", "insert", "update", "delete", "bulk", "bulk-big", "create-table", "drop-table", "create-index", "drop-index", "alter", "vacuum", "incr-vacuum", "delete-all", "update-grow", "vacuum-pagesize"}
-var readKinds = []string{"select", "select", "indexed", "rowid", "columns", "low-scan", "low-tables", "low-schema", "low-all", "repeat", "pk", "prepared", "select-in-lo-txn", "indexed-in-lo-txn", "low-all-in-hi-txn"}
+var readKinds = []string{"select", "select", "indexed", "rowid", "columns", "low-scan", "low-tables", "low-schema", "low-all", "repeat", "pk", "prepared", "select-in-lo-txn", "indexed-in-lo-txn", "low-all-in-hi-txn", "select-while-writer-open", "rowid-while-writer-open"}
 
 func TestC08History(t *testing.T) {
 	vt.Exec(t, vt.Check[spec]{
@@ -134,6 +134,12 @@ func run(r *vt.Run, t vt.TB, s spec) {
 	}
 	defer sqldb.Close()
 	sqldb.SetMaxOpenConns(1) // one connection: the prepared statements live on it
+	w2open := false
+	defer func() {
+		if w2open {
+			env.O.Close("w2")
+		}
+	}()
 	prepared := map[string]*sql.Stmt{}
 	defer func() {
 		for _, st := range prepared {
@@ -350,7 +356,7 @@ func run(r *vt.Run, t vt.TB, s spec) {
 			}
 
 		// ---------------- reads on the long-lived handles
-		case "select", "indexed", "rowid", "columns", "pk", "prepared", "select-in-lo-txn", "indexed-in-lo-txn":
+		case "select", "indexed", "rowid", "columns", "pk", "prepared", "select-in-lo-txn", "indexed-in-lo-txn", "select-while-writer-open", "rowid-while-writer-open":
 			if tm == nil {
 				continue
 			}
@@ -361,7 +367,33 @@ func run(r *vt.Run, t vt.TB, s spec) {
 			// of this process is inside a read transaction of its own
 			inLo := strings.HasSuffix(kind, "-in-lo-txn")
 			kind = strings.TrimSuffix(kind, "-in-lo-txn")
+			// ...-while-writer-open: the read starts while another connection
+			// (synchronous=OFF: its journal has a valid header from the first
+			// change on) is inside a write transaction it has not committed -
+			// that transaction shows nothing, what was committed before it
+			// shows in full
+			writerOpen := strings.HasSuffix(kind, "-while-writer-open")
+			kind = strings.TrimSuffix(kind, "-while-writer-open")
 			read := func() (out string, ok bool) {
+				if writerOpen {
+					if !w2open {
+						if err := env.O.Open("w2", path); err != nil {
+							r.Harness(t, "open w2: %v", err)
+						}
+						w2open = true
+						if _, err := env.O.Query("w2", "PRAGMA synchronous=OFF"); err != nil {
+							r.Harness(t, "w2 synchronous: %v", err)
+						}
+					}
+					res, err := env.O.Script("w2", []oracle.Stmt{{SQL: "BEGIN IMMEDIATE"}, {SQL: "CREATE TABLE scratch_of_the_open_transaction (x)"}, {SQL: "INSERT INTO scratch_of_the_open_transaction VALUES (1)"}}, true)
+					sqdb.MustOK(r, t, "open transaction", res, err, 3)
+					defer func() {
+						if err := env.O.Exec("w2", "ROLLBACK"); err != nil {
+							r.Harness(t, "rollback w2: %v", err)
+						}
+					}()
+					classes["read-while-another-connection-has-an-open-write-transaction"] = true
+				}
 				if inLo {
 					if err := lo.RLock(); err != nil {
 						fail("lock-error", "RLock: %v", err)
